@@ -1,6 +1,7 @@
 import Sonic.Model.OnDemand
 import Sonic.Proofs.OnDemandAgree
 import Sonic.Proofs.OnDemandEscBits
+import Sonic.Proofs.OnDemandParse
 
 /-!
 # C10 — On-demand lookup returns exactly what full parsing plus pointer lookup returns
@@ -167,6 +168,70 @@ theorem C10_success_iff (W : Nat) (hW : 0 < W) (hW32 : W ≤ 32) (data : List Na
     obtain ⟨s, t, _, e, _⟩ := h1 u hu
     exact ⟨s, t, t, e⟩
 
+/-! ## `Document::ParseOnDemand` = `GetOnDemand` followed by the full `Parse` of the target slice -/
+
+section pod
+open Sonic.Model.Parse (Doc Result Node)
+open Sonic.Proofs.Parse (ExpSmall Balanced expSmall_of_check)
+
+theorem isLookupError_iff (code : Nat) : IsLookupError code ↔ ErrCode code := Iff.rfl
+
+/-- **C10, composed (`ParseOnDemand`).**  Model: `Sonic.Model.OnDemand.parseOnDemand` (`Model/ParseOnDemand.lean`) =
+    `destroyDom`, `GetOnDemand(json, path, target)`, and — unless that failed — `parseImpl(target.data(), target.size())`,
+    i.e. the full parser model `Model.Parse.parseDoc` on the slice `[start, stop)`, copied into its own `size + 64` byte
+    buffer.  For every vector width `0 < W ≤ 32` (the same `W` for the scanner and for the parser's string decoder),
+    every VALID JSON text `data` of bytes (`Spec.Json.parse data = .ok v`, `data.length + 4 < 2^32`) whose number
+    tokens satisfy `ExpSmall` (written exponent below 100000 or token of at most 9600 bytes; the tokens of the slice are
+    tokens of `data`: `Proofs/OnDemandParse.lean`, `expSmall_slice`), every path, every content of the stale part of
+    the key buffer (`junk`), of the 61 padding bytes (`pad`) and of the freshly allocated node stack (`raw n` for a
+    capacity of `n` slots), and every previous document `doc`:
+
+    * (a) if the path resolves in the parsed document to `u`, the composed model returns without fault with
+      `err = 0`, the reported offset is the length of the slice, and the document's value is **exactly `u`**
+      (`r.doc.value = some u`: strings read from the document's own final buffer); the heap ledger stays balanced;
+    * (b) if the path does not resolve, it reports one of the lookup errors `UnknownObjKey`, `ArrIndexOutOfRange`,
+      `MismatchType`, `InvalidChar` (`IsLookupError`) and the document is null. -/
+theorem C10_parse_on_demand (W : Nat) (hW : 0 < W) (hW32 : W ≤ 32) (data : List Nat) (hd : ∀ x ∈ data, x < 256)
+    (hL : data.length + 4 < 2 ^ 32) (hexp : ExpSmall data) (junk : Nat → Nat → Nat) (hj : ∀ s i, junk s i < 256)
+    (pad : List Nat) (hpad : ∀ x ∈ pad, x < 256) (hpl : pad.length = 61) (raw : Nat → List (Option Node))
+    (hraw : ∀ n, (raw n).length = n) (doc : Doc) (path : List Step) (v : JVal) (hv : parse data = .ok v) :
+    (∀ u, Pointer.at v path = some u →
+      ∃ r start stop, getOnDemand W data junk path = .ok (.ok start stop stop) ∧
+        parseOnDemand W junk pad raw doc data path = .ok r ∧ r.err = 0 ∧ r.off = stop - start ∧
+        r.doc.value = some u ∧ (Balanced doc → Balanced r.doc)) ∧
+    (Pointer.at v path = none →
+      ∃ r, parseOnDemand W junk pad raw doc data path = .ok r ∧ IsLookupError r.err ∧ r.doc.root = .null ∧
+        r.doc.value = some .null) :=
+  parseOnDemand_spec hW hW32 data hd hL hexp junk hj pad hpad hpl raw hraw doc path v hv
+
+/-- **`ParseOnDemand` does not depend on the vector width** (C15 style: `W = 16` for the SSE build, `W = 32` for the
+    AVX2 build), nor on the stale key-buffer bytes, the padding, the raw node stack or the previous document: either
+    both runs succeed with the same value, or both report a lookup error and leave a null document. -/
+theorem C10_parse_on_demand_width (W₁ W₂ : Nat) (h1 : 0 < W₁) (h1' : W₁ ≤ 32) (h2 : 0 < W₂) (h2' : W₂ ≤ 32)
+    (data : List Nat) (hd : ∀ x ∈ data, x < 256) (hL : data.length + 4 < 2 ^ 32) (hexp : ExpSmall data)
+    (junk₁ junk₂ : Nat → Nat → Nat) (hj₁ : ∀ s i, junk₁ s i < 256) (hj₂ : ∀ s i, junk₂ s i < 256)
+    (pad₁ pad₂ : List Nat) (hpad₁ : ∀ x ∈ pad₁, x < 256) (hpl₁ : pad₁.length = 61) (hpad₂ : ∀ x ∈ pad₂, x < 256)
+    (hpl₂ : pad₂.length = 61) (raw₁ raw₂ : Nat → List (Option Node)) (hraw₁ : ∀ n, (raw₁ n).length = n)
+    (hraw₂ : ∀ n, (raw₂ n).length = n) (doc₁ doc₂ : Doc) (path : List Step) (v : JVal) (hv : parse data = .ok v) :
+    ∃ r₁ r₂, parseOnDemand W₁ junk₁ pad₁ raw₁ doc₁ data path = .ok r₁ ∧
+      parseOnDemand W₂ junk₂ pad₂ raw₂ doc₂ data path = .ok r₂ ∧ r₁.doc.value = r₂.doc.value ∧
+      ((r₁.err = 0 ∧ r₂.err = 0 ∧ r₁.doc.value = Pointer.at v path) ∨
+       (IsLookupError r₁.err ∧ IsLookupError r₂.err ∧ r₁.doc.root = .null ∧ r₂.doc.root = .null ∧
+          Pointer.at v path = none)) := by
+  obtain ⟨a1, b1⟩ := C10_parse_on_demand W₁ h1 h1' data hd hL hexp junk₁ hj₁ pad₁ hpad₁ hpl₁ raw₁ hraw₁ doc₁ path v hv
+  obtain ⟨a2, b2⟩ := C10_parse_on_demand W₂ h2 h2' data hd hL hexp junk₂ hj₂ pad₂ hpad₂ hpl₂ raw₂ hraw₂ doc₂ path v hv
+  cases hat : Pointer.at v path with
+  | some u =>
+    obtain ⟨r1, s1, t1, g1, e1, z1, o1, v1, _⟩ := a1 u hat
+    obtain ⟨r2, s2, t2, g2, e2, z2, o2, v2, _⟩ := a2 u hat
+    exact ⟨r1, r2, e1, e2, by rw [v1, v2], Or.inl ⟨z1, z2, v1⟩⟩
+  | none =>
+    obtain ⟨r1, e1, c1, n1, v1⟩ := b1 hat
+    obtain ⟨r2, e2, c2, n2, v2⟩ := b2 hat
+    exact ⟨r1, r2, e1, e2, by rw [v1, v2], Or.inr ⟨c1, c2, n1, n2, rfl⟩⟩
+
+end pod
+
 /-! ## non-vacuity -/
 
 private def J : Nat → Nat → Nat := fun _ _ => 0
@@ -198,5 +263,39 @@ example :
     getOnDemand 32 [91, 91, 93, 44, 53, 93] J [.idx 0, .idx 1] = .ok (.err 9 3 0) ∧
     getOnDemand 32 [91, 49, 93] J [.idx (-1)] = .ok (.err 2 1 0) ∧
     getOnDemand 32 [91, 49, 93] J [.key [97]] = .ok (.err 10 0 0) := by decide +kernel
+
+/-- `ParseOnDemand` on `{"a":[1,{"b":"x\n"}],"c":2.5}`: path `a/1/b` gives the string `x<LF>` (both widths), path `c`
+    the double 2.5, the empty path the whole document; `a/2` and `d` do not resolve (`ArrIndexOutOfRange` 9,
+    `UnknownObjKey` 8) -/
+def exPod : List Nat :=
+  [0x7B, 0x22, 0x61, 0x22, 0x3A, 0x5B, 0x31, 0x2C, 0x7B, 0x22, 0x62, 0x22, 0x3A, 0x22, 0x78, 0x5C, 0x6E, 0x22, 0x7D,
+   0x5D, 0x2C, 0x22, 0x63, 0x22, 0x3A, 0x32, 0x2E, 0x35, 0x7D]
+
+private def podRun (W : Nat) (path : List Step) : String :=
+  podStr (parseOnDemand W J Sonic.Model.Parse.runPad (fun n => List.replicate n none) Sonic.Model.Parse.Doc.fresh
+    exPod path)
+
+example :
+    podRun 32 [.key [0x61], .idx 1, .key [0x62]] = "ok tree=s780a" ∧
+    podRun 16 [.key [0x61], .idx 1, .key [0x62]] = "ok tree=s780a" ∧
+    podRun 32 [.key [0x63]] = "ok tree=d4612811918334230528" ∧
+    podRun 32 [] = "ok tree={k61:[u1,{k62:s780a}],k63:d4612811918334230528}" ∧
+    podRun 32 [.key [0x61], .idx 2] = "err=9" ∧ podRun 16 [.key [0x64]] = "err=8" ∧
+    (match parse exPod with
+      | .ok v => (Pointer.at v [.key [0x61], .idx 1, .key [0x62]]).map JVal.show
+      | .error _ => none) = some "s780a" := by decide +kernel
+
+/-- the hypotheses of `C10_parse_on_demand` are satisfiable (`exPod`, path `a/1/b`) and the conclusion (a) applies -/
+example : ∃ r, parseOnDemand 32 J Sonic.Model.Parse.runPad (fun n => List.replicate n none)
+      Sonic.Model.Parse.Doc.fresh exPod [.key [0x61], .idx 1, .key [0x62]] = .ok r ∧ r.err = 0 ∧
+    r.doc.value = some (.str [0x78, 0x0A]) := by
+  have hv : parse exPod = .ok (.obj [([0x61], .arr [.num (.uint 1), .obj [([0x62], .str [0x78, 0x0A])]]),
+      ([0x63], .num (.real 4612811918334230528))]) := by rfl
+  obtain ⟨h, _⟩ := C10_parse_on_demand 32 (by decide) (by decide) exPod (by decide) (by decide)
+    (Sonic.Proofs.Parse.expSmall_of_check _ (by decide +kernel)) J (fun _ _ => (by show (0 : Nat) < 256; decide))
+    Sonic.Model.Parse.runPad (by decide) (by decide) (fun n => List.replicate n none) (fun n => by simp)
+    Sonic.Model.Parse.Doc.fresh [.key [0x61], .idx 1, .key [0x62]] _ hv
+  obtain ⟨r, _, _, _, hr, he, _, hval, _⟩ := h (.str [0x78, 0x0A]) (by rfl)
+  exact ⟨r, hr, he, hval⟩
 
 end Sonic.Props.C10
